@@ -364,6 +364,40 @@ func ruleC08(c *Ctx) {
 			}
 		}
 	}
+	// ... and on every path: a return that is reached without passing the re-weighting loops leaves the
+	// weights of an earlier optimisation (or the default 1s) in place for that input
+	if len(wstores) == 1 && wstores[0].f == ot {
+		wb := wstores[0].st.Block()
+		outer := wb
+		for h := enclosingLoopHeader(outer); h != nil; h = enclosingLoopHeader(outer) {
+			outer = h
+			if p := h.Idom(); p != nil {
+				outer = p
+			} else {
+				break
+			}
+		}
+		pc := pathCond(newDeepTB(ot), ot.Blocks[0], outer)
+		var conds []string
+		opaqueC := false
+		for _, a := range pc.atoms() {
+			if isIterCond(a.Atom) {
+				continue
+			}
+			conds = append(conds, short(a.Atom.String()))
+			if len(opaqueParts(a.Atom, nil)) > 0 || !a.Atom.contains(func(x *Term) bool { return x.isParam(1) }) {
+				opaqueC = true
+			}
+		}
+		switch {
+		case len(conds) == 0:
+			c.ok("TERM-COUNT", "OptimizeTable:weights rewritten on every path", ot.Pos(), "the re-weighting loops are reached unconditionally")
+		case opaqueC:
+			c.undecided("TERM-COUNT", "OptimizeTable:weights rewritten on every path", ot.Pos(), "the re-weighting loops run under "+strings.Join(conds, ", "))
+		default:
+			c.bad("TERM-COUNT", "OptimizeTable:weights rewritten on every path", wstores[0].st.Pos(), "the weights are only rewritten under "+strings.Join(conds, ", ")+" (a test on the sequence): for other sequences the table comes back with the weights it had – the 1s of a default table or the counts of an earlier optimisation – instead of the counts of this sequence (all 0)")
+		}
+	}
 	c.judge(st, "TERM-COUNT", "OptimizeTable:Weight=freq(ToUpper(seq))[Triplet], nothing else written", ot.Pos(), "for every codon of every amino acid; counts are taken over the upper-cased sequence; letters and triplets untouched", why)
 	okRet := false
 	var rts []string
